@@ -1,7 +1,7 @@
 use rowan::Checkpoint;
 
 use crate::{
-    grammar::{delimited, r#type, value},
+    grammar::{delimited_nonempty, r#type, value},
     parser::Parser,
     syntax_kind::SyntaxKind,
     token_kind::TokenKind,
@@ -277,7 +277,14 @@ pub(super) fn opt_template_arg_list(p: &mut Parser) {
 // TemplateArgList ::= "<" TemplateArgDecl ( "," TemplateArgDecl )* ">"
 pub(super) fn template_arg_list(p: &mut Parser) {
     p.start_node(SyntaxKind::TemplateArgList);
-    delimited(p, T![<], T![>], T![,], template_arg_decl);
+    delimited_nonempty(
+        p,
+        T![<],
+        T![>],
+        T![,],
+        "expected template argument declaration",
+        template_arg_decl,
+    );
     p.finish_node();
 }
 
